@@ -116,15 +116,17 @@ def build_state(case, mode='exact'):
     h = cfgs.Harness(cfg, record_imputer=False)
     ex = h.pfi() if case['cls'] == 'pfi' else h.sage()
     rows = []
+    perms = case.get('row_perms') or []
+    opts = case.get('row_opts') or []
     for j, r in enumerate(case['rows']):
-        x, y = h.row({'x': r, 'y': 0})
+        x, y = h.row({'x': r, 'y': 0, 'perm': perms[j] if j < len(perms) else 0, 'opt': opts[j] if j < len(opts) else None})
         rows.append(x)
         if j == 0 or case.get('warm', True):
             # the realistic explain-then-update loop: the imputer has been used while the storage kept changing
             ex.explain_one(x, y)
         else:
             ex.update_storage(x, y)
-    x, y = h.row({'x': case['x'], 'y': case['y']})
+    x, y = h.row({'x': case['x'], 'y': case['y'], 'perm': case.get('x_perm') or 0, 'opt': case.get('x_opt')})
     return h, ex, rows, x, y
 
 
@@ -456,7 +458,17 @@ def inc_cases(draw):
            'storage': storage,
            'imputer': {'kind': 'marginal', 'strategy': strategy}, 'model': draw(cfgs.model_st(d)), 'loss': draw(cfgs.loss_st()),
            'lbib': False, 'seeds': [0, 0], 'mode': 'exact', 'stream': []}
-    return {'cls': cls, 'cfg': cfg, 'rows': rows, 'warm': draw(st.sampled_from([True, True, False])), 'x': [draw(st.integers(-3, 3)) for _ in range(d)], 'y': draw(st.integers(-3, 3))}
+    variants = {}
+    kind = draw(st.sampled_from(['plain', 'plain', 'positional', 'opt']))
+    if kind == 'positional':
+        # an order-sensitive model and observation dicts whose key order varies
+        cfg['model']['positional'] = True
+        variants = {'row_perms': [draw(st.sampled_from([1, 2, 3, 0])) for _ in rows], 'x_perm': draw(st.sampled_from([0, 1, 2]))}
+    elif kind == 'opt':
+        # an optional unexplained key that only some observations carry
+        cfg['model']['opt'] = [draw(st.integers(1, 3))]
+        variants = {'row_opts': [draw(st.sampled_from([1, -2, None])) for _ in rows], 'x_opt': draw(st.sampled_from([None, 2]))}
+    return {**variants, 'cls': cls, 'cfg': cfg, 'rows': rows, 'warm': draw(st.sampled_from([True, True, False])), 'x': [draw(st.integers(-3, 3)) for _ in range(d)], 'y': draw(st.integers(-3, 3))}
 
 
 def _batch_leaves(how, d, n, ni):
